@@ -100,37 +100,5 @@ theorem new_toInt (d : BitVec 64) :
   rw [tdiv_lit] at e1 ⊢
   split at e1 <;> rename_i h0 <;> simp only [h0, if_true, if_false] <;> omega
 
-/-! ### `time.Unix` normalisation (the hand-written stdlib contract `GoTime.unix`) -/
-
-/-- the nanosecond field of `time.Unix(sec, nsec)` is always in `[0, 10^9)`, and — unless the
-seconds overflow int64 — `sec'·10^9 + nsec' = sec·10^9 + nsec` with `sec' = sec + ⌊nsec / 10^9⌋`. -/
-theorem unix_toInt (sec nsec : BitVec 64) :
-    (GoTime.unix sec nsec).WF ∧
-    (GoTime.unix sec nsec).nsec.toInt = nsec.toInt % 1000000000 ∧
-    (inInt64 (sec.toInt + nsec.toInt / 1000000000) →
-      (GoTime.unix sec nsec).unix.toInt = sec.toInt + nsec.toInt / 1000000000) := by
-  have hS := BitVec.le_toInt sec
-  have hS' := BitVec.toInt_lt (x := sec)
-  have hN := BitVec.le_toInt nsec
-  have hN' := BitVec.toInt_lt (x := nsec)
-  unfold GoTime.unix GoTime.Time.WF
-  dsimp only
-  generalize hq : BitVec.sdiv nsec 1000000000#64 = q
-  have e1 : q.toInt = (nsec.toInt.tdiv 1000000000).bmod (2^64) := by
-    rw [← hq, BitVec.toInt_sdiv]; rfl
-  generalize hr : nsec - q * 1000000000#64 = r
-  have e2 : r.toInt = (nsec.toInt - (q.toInt * 1000000000).bmod (2^64)).bmod (2^64) := by
-    rw [← hr, BitVec.toInt_sub, BitVec.toInt_mul]; rfl
-  have e3 : (sec + q).toInt = (sec.toInt + q.toInt).bmod (2^64) := BitVec.toInt_add _ _
-  have e4 : (sec + q - 1#64).toInt = ((sec + q).toInt - 1).bmod (2^64) := by
-    rw [BitVec.toInt_sub]; rfl
-  have e5 : (r + 1000000000#64).toInt = (r.toInt + 1000000000).bmod (2^64) := by
-    rw [BitVec.toInt_add]; rfl
-  rw [bmod64] at e1 e3 e4 e5
-  rw [bmod64, bmod64] at e2
-  rw [tdiv_lit] at e1
-  simp only [inInt64, minInt64, maxInt64]
-  simp only [Bool.or_eq_true, BitVec.slt_iff_toInt_lt, BitVec.sle_iff_toInt_le, BitVec.reduceToInt]
-  split at e1 <;> (repeat' split) <;> (dsimp only) <;> (refine ⟨?_, ?_, ?_⟩) <;> omega
 
 end WktTime
